@@ -360,6 +360,35 @@ def path_forms(F, rep):
         if c.get("k") == "MethodCall" and c["m"] == "starts_with" and peel(c["args"][0]).get("v") == "/":
             parent_ok = untrimmed(c["recv"]) and "root" in pp(i["t"]) and "parent()" in pp(i.get("e"))
     rep.ob("PATH-FORMS", "root-vs-relative", parent_ok, "a leading `/` selects the source root, otherwise the directory of the importing file", fn["sp"])
+    # the path names one file: its segments are separated by `/` - two names with nothing between them are not one name
+    fpath = F.fn(P + "statement::path")
+    rep.analysed(fpath)
+    pb = fn_body(fpath)
+    seg_ok = None
+    for lp in [n_ for n_ in nodes(pb) if n_.get("k") in ("Loop", "While", "ForLoop")]:
+        pushes = [c_ for c_ in nodes(lp, "MethodCall") if c_["m"] in ("push_str", "push") and "String" in (c_.get("recv_ty") or "")]
+        if not pushes:
+            continue
+        seg_ok = False
+        for i_ in nodes(lp, "If"):
+            if "Slash" not in pp(i_["c"]):
+                continue
+            neg = pp(i_["c"]).lstrip("(").startswith(("!", "Not", "not"))
+            other = i_["t"] if neg else i_.get("e")
+            if other is not None and any(x.get("k") in ("Break", "Ret") for x in nodes(other)):
+                seg_ok = True
+        for m_ in nodes(lp, "Match"):
+            for a_ in m_["arms"]:
+                if "Slash" not in pp(a_["pat"]) and any(x.get("k") in ("Break", "Ret") for x in nodes(a_["body"])) and \
+                        any("Slash" in pp(b_["pat"]) for b_ in m_["arms"]):
+                    seg_ok = True
+    if seg_ok is None:
+        rep.anchor_missing("the segment loop of statement::path")
+    else:
+        rep.ob("PATH-FORMS", "path|segments-joined-by-slash", seg_ok,
+               "a path ends at the first name that is not followed by `/`" if seg_ok else
+               "statement::path() keeps appending identifiers whether or not a `/` stands between them: `use e_ m` is accepted and "
+               "loads e_m.sy under the name `e_m` - a module nobody named", fpath["sp"])
     # .. and the two agree for the main file: a rooted import written in the main directory and a relative import of the same
     # file must spell the same PathBuf (the loader's visited set and the resolver's tables are keyed by it), so the source
     # root is the main path's parent() - the operation relative imports apply to the importing file - whenever it has one
